@@ -1,21 +1,22 @@
 #!/bin/bash
-# Applies every seeded change under /verif/seeded to /repo (the rebased patch where one exists), runs the quick
+# Applies every seeded change under /verif/seeded to $REPO (the rebased patch where one exists), runs the quick
 # check, undoes it, and prints one line per change: exit code (1 = caught) and the strata that reported it.
-# usage: tools/run_seeded.sh [id-prefix ...]      (takes about 1.5 min per change; /repo must be clean)
+# usage: tools/run_seeded.sh [id-prefix ...]      (takes about 1.5 min per change; $REPO must be clean)
 set -u
 VERIF="$(cd "$(dirname "${BASH_SOURCE[0]}")/.." && pwd)"; cd "$VERIF"
-if [ -n "$(git -C /repo status --porcelain)" ]; then echo "/repo is not clean"; exit 2; fi
+REPO="${VERIF_REPO:-/repo}"; export VERIF_REPO="$REPO"
+if [ -n "$(git -C $REPO status --porcelain)" ]; then echo "$REPO is not clean"; exit 2; fi
 sel=("$@"); fail=0
 for d in seeded/*/; do
   id="$(basename "$d")"
   if [ ${#sel[@]} -gt 0 ]; then ok=0; for s in "${sel[@]}"; do [[ "$id" == "$s"* ]] && ok=1; done; [ $ok -eq 1 ] || continue; fi
   p="$(ls "$d"patch.rebased-*.diff 2>/dev/null | tail -1)"; [ -z "$p" ] && p="${d}patch.diff"
-  if ! git -C /repo apply --check "$(realpath "$p")" 2>/dev/null; then echo "$id: does not apply to /repo HEAD (see meta.json)"; continue; fi
-  git -C /repo apply "$(realpath "$p")"
+  if ! git -C $REPO apply --check "$(realpath "$p")" 2>/dev/null; then echo "$id: does not apply to $REPO HEAD (see meta.json)"; continue; fi
+  git -C $REPO apply "$(realpath "$p")"
   t0=$(date +%s)
   out="$(./check C08 --tier quick --no-evidence --run-timeout 25 --first-only 2>&1)"; rc=$?
   t1=$(date +%s)
-  git -C /repo checkout -q -- . ; git -C /repo clean -fdq visitor plugin
+  git -C $REPO checkout -q -- . ; git -C $REPO clean -fdq visitor plugin
   strata="$(echo "$out" | grep -E "^--- " | sed -E 's/^--- ([DTR]) violated.*\(([a-z-]+)[^)]*\), found in stratum ([a-z]+)/\1:\3/' | sort | uniq -c | awk '{printf "%s x%s  ", $2, $1}')"
   herr="$(echo "$out" | grep -c "^HARNESS-ERROR")"
   [ "$rc" -ne 1 ] && fail=1
